@@ -43,6 +43,8 @@ def run(ctx: Ctx, chk) -> None:
     chk.run_rule(listen1, ctx)
     chk.run_rule(lambda c, k: tables.dispatch_total_rule(c, k, "incoming"), ctx)
     chk.run_rule(reject_set, ctx)
+    chk.run_rule(tables.handler_state_rule, ctx)
+    chk.run_rule(ctor_identity, ctx)
 
 
 # ---------------------------------------------------------------------------
@@ -60,6 +62,49 @@ LICENSED_REJECTIONS = {
     "handle_i_heartbeat_response": {"MissingNodeError", "InvalidMessageError"},
     "handle_i_pre_sleep_notification": {"MissingNodeError"},
 }
+
+
+def ctor_identity(ctx: Ctx, chk) -> None:
+    rule = "CTOR-ID"
+    chk.rule(rule, "Node and Child store every constructor argument as it was given (self.<attr> = <param>, containers defaulting to empty): what a handler hands to the constructor - the presented type, library version, description - is what the registry holds")
+    n = 0
+    for cfq in ("aiomysensors.model.node.Node", "aiomysensors.model.node.Child"):
+        c = ctx.cls(cfq)
+        init = c.find_method("__init__")
+        if init is None:
+            raise AnalysisError(f"anchor vanished: {cfq}.__init__")
+        selfn = init.positional_params[0]
+        for st in ctx.own_nodes(init):
+            if not isinstance(st, (ast.Assign, ast.AnnAssign)):
+                continue
+            tg = st.targets[0] if isinstance(st, ast.Assign) else st.target
+            if not (isinstance(tg, ast.Attribute) and isinstance(tg.value, ast.Name) and tg.value.id == selfn) or st.value is None:
+                continue
+            used = [x.id for x in ast.walk(st.value) if isinstance(x, ast.Name) and x.id in init.params and x.id != selfn]
+            if not used:
+                continue
+            n += 1
+            chk.instance(rule)
+            key = f"{init.fq}::self.{tg.attr}"
+            v = st.value
+            p = used[0]
+            ann = norm(init.param_annotation(p)) if init.param_annotation(p) is not None else ""
+            container = any(k in ann for k in ("dict", "Dict", "list", "List", "Mapping")) or "None" in ann
+            identity = isinstance(v, ast.Name) and v.id == p
+            # int(<int parameter>): value-preserving normalisation of an IntEnum member to its number
+            if isinstance(v, ast.Call) and isinstance(v.func, ast.Name) and v.func.id == "int" and len(v.args) == 1 and not v.keywords and isinstance(v.args[0], ast.Name) and v.args[0].id == p and ann == "int":
+                identity = True
+            # `param or {}` / `{} if param is None else param` for an optional container parameter
+            dflt = False
+            if container and isinstance(v, ast.BoolOp) and isinstance(v.op, ast.Or) and len(v.values) == 2 and isinstance(v.values[0], ast.Name) and v.values[0].id == p and isinstance(v.values[1], (ast.Dict, ast.List)) and not (v.values[1].keys if isinstance(v.values[1], ast.Dict) else v.values[1].elts):
+                dflt = True
+            if container and isinstance(v, ast.IfExp) and sorted([norm(v.body), norm(v.orelse)]) in (sorted([p, "{}"]), sorted([p, "[]"])):
+                dflt = True
+            if identity or dflt:
+                chk.ok(rule, key, f"self.{tg.attr} = {norm(v)[:40]}", ctx.loc(init, st), sample=n <= 2)
+            else:
+                chk.refute(rule, key, f"`{norm(st)[:70]}` does not store the argument as given: a value the network presented (e.g. an empty library version or description) is replaced by something else in the registry", ctx.loc(init, st))
+    chk.floor(rule, "constructor parameters stored by Node / Child", n, 10)
 
 
 def reject_set(ctx: Ctx, chk) -> None:
